@@ -161,12 +161,27 @@ def _more_uses(qr, case, eso, time, ham, rho0, nt):
             outs = [eso.apply(float(t), rin) for t in time.data]
             rho_in = numpy.array(rin.data)
             seen = [numpy.array(o.data) for o in outs]
+            # the superoperator at single times is taken out inside the context as well (objects of their own)
+            taken = [eso.at(float(t)) for t in list(time.data)[1::2]]
         extra["in_basis"] = (dat_in, numpy.array([numpy.array(o.data) for o in outs]), rho_in, numpy.array(seen),
                              numpy.array(eso.data))
+    # application in place (copy=False) on states whose data are complex, real and integer arrays: the same result
+    tk = float(time.data[min(nt - 1, 2)])
+    want_ip = numpy.array(eso.apply(tk, ReducedDensityMatrix(data=rho0.copy())).data)
+    got_ip = {}
+    for name, arr in (("complex", rho0.astype(complex)), ("real", numpy.real(numpy.diag(numpy.diag(rho0))).astype(float)),
+                      ("integer", numpy.diag([1] + [0] * (rho0.shape[0] - 1)))):
+        target = ReducedDensityMatrix(data=arr.copy())
+        ref_t = numpy.array(eso.apply(tk, ReducedDensityMatrix(data=arr.astype(complex))).data)
+        res = eso.apply(tk, target, copy=False)
+        got_ip[name] = (numpy.array(target.data), ref_t)
+    extra["inplace"] = got_ip
     return extra
 
 
 def _check_more(ctx, extra, data, applied, tag):
+    for name, (got, want) in (extra.get("inplace") or {}).items():
+        ctx.close("apply-in-place-equals-copy", got, want, rtol=1e-10, scale=1.0, where=tag + "/" + name + "-target")
     if "list" in extra:
         idx, got = extra["list"]
         if got.shape[0] != len(idx):
@@ -367,6 +382,11 @@ def _check_lind(case, ctx):
             time2, ham2, relt2 = make()
             prop = ReducedDensityMatrixPropagator(time2, ham2, relt2,
                                                   PDeph=PureDephasing(drates=g.copy(), dtype=case["pdeph"]))
+            # the propagator is used with another refinement first (a convergence check), then with the one compared
+            prop.propagate(ReducedDensityMatrix(data=rho0.copy()), Nref=dense + 3)
+            prop.setDtRefinement(2 * dense + 1)
+            prop.propagate(ReducedDensityMatrix(data=rho0.copy()))
+            prop.setDtRefinement(1)
             rt = prop.propagate(ReducedDensityMatrix(data=rho0.copy()), Nref=dense)
             return numpy.array(ap), numpy.array(rt.data)
         ok, r = guarded(ctx, "calculate", run_pd, tag + "/pdeph-" + case["pdeph"])
